@@ -24,7 +24,7 @@ ASSUMPTIONS = [
 ]
 N = {'quick': 600, 'thorough': 4000}
 SHAPES = ['direct', 'map_above', 'rev_slice', 'batch2', 'chain', 'items_below', 'items_map', 'concat_below', 'copied',
-          'copied_frozen', 'warn', 'list_zip_warn', 'cache_below', 'zip_below']
+          'copied_frozen', 'warn', 'list_zip_warn', 'cache_below', 'zip_below', 'warn_payload']
 # incl. exceptions from the OSError family (a missing file is THE everyday failure of a loading function) and
 # NotImplementedError (which the library itself uses for "items() not defined")
 RAISED = ['FilterException', 'VErrA', 'VErrB', 'VErrC', 'ValueError', 'IndexError', 'VBase', 'FileNotFoundError',
@@ -86,6 +86,11 @@ def make(kind, n, fail, shape, spec):
         inner = out['in']
         if inner['op'] == 'boomset':
             inner['noargs'] = True
+    elif shape == 'warn_payload':
+        out['warn'] = True
+        inner = out['in']
+        if inner['op'] == 'boomset':
+            inner['noargs'] = 'unhashable'  # the caught exceptions carry an unhashable argument
     elif shape == 'list_zip_warn':
         out = {'op': 'catch', 'exc': spec, 'warn': True,
                'in': {'op': 'zip', 'how': 'method', 'ins': [node, {'op': 'list', 'id': 5, 'n': n, 'mode': 'pickle',
